@@ -1,20 +1,20 @@
-//! C20 — CLI reports agree with the language server and are reproducible (E5).
-//! (First part: the per-fixture usage counts of `fixtures list`, shared with C04.)
+//! C20 — CLI reports agree with the language server and are reproducible (E5: the real binary).
 
 use crate::db::rel;
-use crate::e5::{count_of, materialize, parse_list, run_cli, Scratch};
+use crate::e5::{count_of, materialize, materialize_with_venv, parse_list, run_cli, seed_shim, Scratch};
 use crate::layouts::Layout;
-use crate::report::Report;
+use crate::report::{is_thorough, Report};
+use crate::ws::Ws;
 use pytest_language_server::FixtureDatabase;
 use serde_json::{json, Value};
 use std::collections::BTreeMap;
+use std::sync::atomic::{AtomicU64, Ordering};
 
-/// Workspaces for the CLI checks: project-only layouts (no plugin / site-packages distractor —
-/// those need a synthetic venv, see `run`), spread evenly over the enumeration.
-pub fn cli_layouts(n: usize) -> Vec<Layout> {
+/// Workspaces for the CLI checks, spread evenly over the layout enumeration.
+pub fn cli_layouts(n: usize, with_venv: bool) -> Vec<Layout> {
     let all: Vec<Layout> = Layout::enumerate(2, false)
         .into_iter()
-        .filter(|l| !l.distractors[3] && !l.distractors[4])
+        .filter(|l| with_venv || (!l.distractors[3] && !l.distractors[4]))
         .collect();
     let step = (all.len() / n.max(1)).max(1);
     all.into_iter().step_by(step).take(n).collect()
@@ -33,8 +33,8 @@ pub fn expected_counts(db: &FixtureDatabase, root: &str) -> BTreeMap<(String, St
 }
 
 pub fn cli_counts_subset(rep: &Report, n: usize) -> Value {
-    let lays = cli_layouts(n);
-    let compared = std::sync::atomic::AtomicU64::new(0);
+    let lays = cli_layouts(n, false);
+    let compared = AtomicU64::new(0);
     crate::report::par_batches(&lays, 4, |_i, lay| {
         let ws = lay.to_ws();
         let r = ws.render();
@@ -47,7 +47,7 @@ pub fn cli_counts_subset(rep: &Report, n: usize) -> Value {
         let out = run_cli(&["fixtures", "list", &root], &[]);
         let got = parse_list(&out.stdout);
         for ((f, name), n) in &want {
-            compared.fetch_add(1, std::sync::atomic::Ordering::Relaxed);
+            compared.fetch_add(1, Ordering::Relaxed);
             let g = got.get(&(f.clone(), name.clone())).map(|i| count_of(i));
             if g != Some(*n) {
                 rep.violation(
@@ -58,5 +58,187 @@ pub fn cli_counts_subset(rep: &Report, n: usize) -> Value {
             }
         }
     });
-    json!({"workspaces": lays.len(), "fixture_counts_compared": compared.load(std::sync::atomic::Ordering::Relaxed)})
+    json!({"workspaces": lays.len(), "fixture_counts_compared": compared.load(Ordering::Relaxed)})
+}
+
+fn extra_workspaces() -> Vec<Ws> {
+    use crate::ws::{FileSpec, Item};
+    let mut auto = Item::fixture("auto_fx", &[]);
+    if let Item::Fixture { autouse, .. } = &mut auto {
+        *autouse = true;
+    }
+    vec![
+        // autouse + unused + override chain where the override is used only inside its own file
+        Ws { files: vec![
+            FileSpec::new("conftest.py", vec![Item::fixture("db", &[]), auto.clone(), Item::fixture("never_used", &[])]),
+            FileSpec::new("sub/conftest.py", vec![Item::fixture("db", &["db"]), Item::fixture("session", &["db"])]),
+            FileSpec::new("sub/test_orders.py", vec![Item::test("orders", &["session"])]),
+        ] },
+        // usefixtures / pytestmark / indirect usages count as usages
+        Ws { files: vec![
+            FileSpec::new("conftest.py", vec![Item::fixture("a", &[]), Item::fixture("b", &[]), Item::fixture("c", &[]), Item::fixture("d", &[])]),
+            FileSpec::new("test_m.py", vec![Item::Pytestmark { names: vec!["a".into()] }, Item::Test { name: "u".into(), params: vec![], usefixtures: vec!["b".into()], indirect: vec![] }, Item::Test { name: "i".into(), params: vec!["c".into()], usefixtures: vec![], indirect: vec!["c".into()] }]),
+        ] },
+        // a name defined twice in one file (the first definition is shadowed)
+        Ws { files: vec![
+            FileSpec::new("test_dup.py", vec![Item::fixture("fx", &[]), Item::test("t", &["fx"]), Item::fixture("fx", &[])]),
+        ] },
+        // imported fixtures
+        Ws { files: vec![
+            FileSpec::new("conftest.py", vec![Item::StarImport { module: "helpers".into() }]),
+            FileSpec::new("helpers.py", vec![Item::fixture("hx", &[]), Item::fixture("hy", &[])]),
+            FileSpec::new("test_h.py", vec![Item::test("t", &["hx"])]),
+        ] },
+    ]
+}
+
+fn unused_from_text(out: &str) -> Vec<(String, String)> {
+    // "  • name in path"
+    let mut v = Vec::new();
+    for l in out.lines() {
+        let t = l.trim();
+        if let Some(rest) = t.strip_prefix("• ") {
+            if let Some(i) = rest.rfind(" in ") {
+                v.push((rest[i + 4..].to_string(), rest[..i].to_string()));
+            }
+        }
+    }
+    v.sort();
+    v
+}
+
+pub fn run(rep: &'static Report) {
+    let thorough = is_thorough();
+    let mut wss: Vec<(Ws, Value)> = extra_workspaces().into_iter().map(|w| (w, json!("hand-written"))).collect();
+    for l in cli_layouts(if thorough { 1500 } else { 120 }, true) {
+        let d = json!(l);
+        wss.push((l.to_ws(), d));
+    }
+    for ch in crate::checks::c02::Chain::enumerate(2, 3).into_iter().step_by(if thorough { 1 } else { 9 }) {
+        let d = json!(ch);
+        wss.push((ch.to_ws(), d));
+    }
+    let runs = AtomicU64::new(0);
+    let compared = AtomicU64::new(0);
+    let nontrivial = AtomicU64::new(0);
+    let threads_set: Vec<&str> = vec!["1", "4", "16"];
+    let seeds: Vec<&str> = if thorough { vec!["0", "1", "2", "3"] } else { vec!["0", "1"] };
+    crate::report::par_batches(&wss, 2, |i, (ws, desc)| {
+        let r = ws.render();
+        let sc = Scratch::new("c20");
+        materialize_with_venv(ws, &r, sc.path());
+        let root = sc.path().to_string_lossy().to_string();
+        // reference: the library scanning the same tree in-process
+        let db = FixtureDatabase::new();
+        db.scan_workspace(sc.path());
+        let mut want_unused: Vec<(String, String)> = Vec::new();
+        let mut shadowed_dup = false;
+        for e in db.definitions.iter() {
+            for d in e.value() {
+                if d.is_third_party || d.autouse {
+                    continue;
+                }
+                if db.find_references_for_definition(d).is_empty() {
+                    want_unused.push((rel(&d.file_path, &root), d.name.clone()));
+                    if e.value().iter().filter(|x| x.file_path == d.file_path).count() > 1 {
+                        shadowed_dup = true;
+                    }
+                }
+            }
+        }
+        want_unused.sort();
+        if !want_unused.is_empty() {
+            nontrivial.fetch_add(1, Ordering::Relaxed);
+        }
+        let counts = expected_counts(&db, &root);
+        let case = || json!({"workspace": desc, "files": ws.files.iter().map(|f| f.rel.clone()).collect::<Vec<_>>(), "texts": r.texts});
+        let base_env = [("RAYON_NUM_THREADS", "4")];
+        // --- fixtures unused (text / json / exit status)
+        let ut = run_cli(&["fixtures", "unused", &root], &base_env);
+        let uj = run_cli(&["fixtures", "unused", &root, "--format", "json"], &base_env);
+        runs.fetch_add(2, Ordering::Relaxed);
+        let got_text = unused_from_text(&ut.stdout);
+        let ctx = format!("same_name_twice_in_file={}", shadowed_dup);
+        compared.fetch_add(1, Ordering::Relaxed);
+        if got_text != want_unused {
+            rep.violation(&format!("`fixtures unused` list differs from unreferenced project fixtures [{}]", ctx), &format!("CLI {:?} vs server {:?}", got_text, want_unused), case);
+        }
+        let want_code = if want_unused.is_empty() { 0 } else { 1 };
+        // the exit status must follow the printed list
+        let printed_empty = got_text.is_empty();
+        if ut.code != Some(if printed_empty { 0 } else { 1 }) || uj.code != ut.code {
+            rep.violation("`fixtures unused` exit status does not follow its list", &format!("text exit {:?}, json exit {:?}, listed {}", ut.code, uj.code, got_text.len()), case);
+        }
+        if got_text == want_unused && ut.code != Some(want_code) {
+            rep.violation("`fixtures unused` exit status wrong", &format!("exit {:?}, expected {}", ut.code, want_code), case);
+        }
+        match serde_json::from_str::<Value>(&uj.stdout) {
+            Ok(Value::Array(a)) => {
+                let mut j: Vec<(String, String)> = a.iter().map(|e| (e["file"].as_str().unwrap_or("").to_string(), e["fixture"].as_str().unwrap_or("").to_string())).collect();
+                j.sort();
+                if j != got_text {
+                    rep.violation("`fixtures unused` JSON entries differ from the text entries", &format!("json {:?} vs text {:?}", j, got_text), case);
+                }
+            }
+            _ => {
+                rep.violation("`fixtures unused --format json` is not a JSON array", &uj.stdout, case);
+            }
+        }
+        // --- fixtures list (counts, filters)
+        let lp = run_cli(&["fixtures", "list", &root], &base_env);
+        let ls = run_cli(&["fixtures", "list", &root, "--skip-unused"], &base_env);
+        let lo = run_cli(&["fixtures", "list", &root, "--only-unused"], &base_env);
+        runs.fetch_add(3, Ordering::Relaxed);
+        let (p, s, o) = (parse_list(&lp.stdout), parse_list(&ls.stdout), parse_list(&lo.stdout));
+        for ((f, name), n) in &counts {
+            // third-party site-packages files are displayed under the venv path as well
+            compared.fetch_add(1, Ordering::Relaxed);
+            let g = p.get(&(f.clone(), name.clone())).map(|i| count_of(i));
+            if g != Some(*n) {
+                rep.violation(&format!("`fixtures list` count differs from references [{}]", ctx), &format!("{} in {}: CLI {:?}, references {}", name, f, p.get(&(f.clone(), name.clone())), n), case);
+            }
+        }
+        let pk: std::collections::BTreeSet<_> = p.keys().cloned().collect();
+        let sk: std::collections::BTreeSet<_> = s.keys().cloned().collect();
+        let ok: std::collections::BTreeSet<_> = o.keys().cloned().collect();
+        if !sk.is_disjoint(&ok) || sk.union(&ok).cloned().collect::<std::collections::BTreeSet<_>>() != pk {
+            rep.violation("`fixtures list` filters do not partition the fixtures", &format!("plain {:?}, --skip-unused {:?}, --only-unused {:?}", pk, sk, ok), case);
+        }
+        // --- reproducibility: worker counts × hash seeds × repetitions, byte-identical
+        let shim = seed_shim();
+        let cmds: Vec<(Vec<&str>, &str)> = vec![
+            (vec!["fixtures", "unused", &root], &ut.stdout),
+            (vec!["fixtures", "unused", &root, "--format", "json"], &uj.stdout),
+            (vec!["fixtures", "list", &root], &lp.stdout),
+            (vec!["fixtures", "list", &root, "--skip-unused"], &ls.stdout),
+            (vec!["fixtures", "list", &root, "--only-unused"], &lo.stdout),
+        ];
+        for (args, base) in &cmds {
+            for t in &threads_set {
+                for sd in &seeds {
+                    for _rep in 0..(if thorough { 2 } else { 1 }) {
+                        let o = run_cli(args, &[("RAYON_NUM_THREADS", t), ("LD_PRELOAD", &shim), ("VSEED", sd)]);
+                        runs.fetch_add(1, Ordering::Relaxed);
+                        if &o.stdout != *base {
+                            rep.violation("CLI output differs between runs (worker count / hash seed / repetition)", &format!("{:?} with RAYON_NUM_THREADS={} VSEED={}", &args[..2], t, sd), case);
+                        }
+                    }
+                }
+            }
+        }
+        if i % 97 == 1 {
+            rep.sample(json!({"files": ws.files.iter().map(|f| f.rel.clone()).collect::<Vec<_>>(), "fixtures_list_output": lp.stdout, "unused_json": uj.stdout}));
+        }
+    });
+    rep.set("evaluations", runs.load(Ordering::Relaxed));
+    rep.set("cli_process_runs", runs.load(Ordering::Relaxed));
+    rep.set("comparisons_with_server_answers", compared.load(Ordering::Relaxed));
+    rep.set("states", wss.len() as u64);
+    rep.set("transitions", runs.load(Ordering::Relaxed));
+    rep.set("distinct_nontrivial", nontrivial.load(Ordering::Relaxed));
+    rep.set("traces_validated_against_impl", runs.load(Ordering::Relaxed));
+    rep.set("exhaustive", true);
+    rep.set("sweeps", json!({"RAYON_NUM_THREADS": threads_set, "hash_seeds_via_LD_PRELOAD": seeds}));
+    rep.set("rule", "workspaces = 4 hand-written (autouse, unused, override used only in its own file, marks, same name twice in a file, imported fixtures) + an evenly spaced subset of the C01 layout enumeration (all provider kinds, plugin via an in-workspace editable install, third-party via a pytest11 entry point in a synthetic .venv) + C02 chains, materialised on tmpfs; the REAL binary runs `fixtures unused` (text, json) and `fixtures list` (plain, --skip-unused, --only-unused); oracle = the library scanning the same tree in-process: unused list == project, non-autouse definitions with empty references; exit status follows the list; JSON == text entries; every printed count == |references|; filters partition; and every command is re-run under worker counts {1,4,16} × hash seeds (LD_PRELOAD shim) and must be byte-identical; non-trivial = workspaces with at least one unused fixture");
+    rep.assume("worker counts and hash seeds are labelled sweeps; the in-process reference uses the same scan code as the binary, the comparison is between the CLI's own counting (compute_definition_usage_counts) and find_references_for_definition");
 }
